@@ -309,19 +309,36 @@ func inlineRound(repo, goarch string, cur map[string][]byte, failed map[string]s
 			return nil, fmt.Errorf("type errors in %s: %v", p.PkgPath, p.Errors[0])
 		}
 	}
-	// interface method names: a method with such a name may be called through the interface
-	ifaceMethods := map[string]bool{}
+	// interfaces of the repository by method name: a method of a type that implements one of them may be called
+	// through the interface (an unexported method can only satisfy an interface of its own package)
+	ifaceByMethod := map[string][]*types.Interface{}
 	for _, p := range pkgs {
 		sc := p.Types.Scope()
 		for _, n := range sc.Names() {
 			if tn, ok := sc.Lookup(n).(*types.TypeName); ok {
 				if it, ok := tn.Type().Underlying().(*types.Interface); ok {
 					for i := 0; i < it.NumMethods(); i++ {
-						ifaceMethods[it.Method(i).Name()] = true
+						ifaceByMethod[it.Method(i).Name()] = append(ifaceByMethod[it.Method(i).Name()], it)
 					}
 				}
 			}
 		}
+	}
+	viaInterface := func(obj *types.Func) bool {
+		sig, _ := obj.Type().(*types.Signature)
+		if sig == nil || sig.Recv() == nil {
+			return false
+		}
+		rt := sig.Recv().Type()
+		if pt, ok := rt.(*types.Pointer); ok {
+			rt = pt.Elem()
+		}
+		for _, it := range ifaceByMethod[obj.Name()] {
+			if types.Implements(rt, it) || types.Implements(types.NewPointer(rt), it) {
+				return true
+			}
+		}
+		return false
 	}
 	cands := map[*types.Func]*normCand{}
 	var order []*normCand
@@ -352,8 +369,8 @@ func inlineRound(repo, goarch string, cur map[string][]byte, failed map[string]s
 					nc.bad = "exported: callers outside the repository may exist"
 				case fd.Name.Name == "init" || fd.Name.Name == "main":
 					nc.bad = "init/main"
-				case fd.Recv != nil && ifaceMethods[fd.Name.Name]:
-					nc.bad = "method with the name of an interface method: may be called through the interface"
+				case fd.Recv != nil && viaInterface(obj):
+					nc.bad = "method of a type that implements an interface with this method: may be called through the interface"
 				case fd.Type.TypeParams != nil:
 					nc.bad = "generic"
 				}
